@@ -1,7 +1,6 @@
-SPECIFICATION Spec
+SPECIFICATION FairSpec
 CONSTANT Depth = 8
 CONSTANT ToolSet <- CoreTools
-CONSTRAINT DepthBound
 INVARIANT InvRunEndsClean
 INVARIANT InvNoCleanupBeforeEnd
 INVARIANT InvResultsOnlyAfterJoin
@@ -11,4 +10,6 @@ INVARIANT InvCleanupAtMostOnce
 PROPERTY RefusalIsNoOp
 PROPERTY LegalIffAllowed
 PROPERTY EndedIsStable
+PROPERTY EventuallyExits
+PROPERTY BlockedIsJoinable
 CHECK_DEADLOCK FALSE
